@@ -38,6 +38,9 @@ def scenario_families(rnd, tier):
     fams.append((Bbig, [1, 3], "corrupt=20000", "BIG first multi-block part corrupted"))
     fams.append((Bbig, [1, 3], "corrupt=%d" % (40010 + 69000), "BIG second multi-block part corrupted"))
     fams.append((Bbig, [3], "corrupt=5", "BIG plain range corrupted"))
+    # the target is what an interrupted download left: it ends inside a multi-block chunk, more than one 32 KiB block of
+    # which is already there (the validity scan reads those blocks and then meets the end of the file)
+    fams.append((Bbig, [1, 3, 4, 5], "", "BIGTRUNC target ends inside a multi-block chunk"))
     # compressed chunks (stored size well below the data size) whose payload arrives damaged: the zero-fill and the
     # verification work on the STORED extent; the neighbours are present and valid
     chz = [b""] + [(b"%d " % k) * n for k, n in enumerate((300, 150, 400, 200, 350), 1)]
@@ -72,6 +75,9 @@ def run(tier):
         for c in missing:
             a, z = delta.extents(h)[c]
             T[a:z] = corpus.rand(rnd, z - a)
+        if tag.startswith("BIGTRUNC"):
+            a3, z3 = delta.extents(h)[3]
+            T[a3:a3 + 40000] = B[a3:a3 + 40000]; del T[a3 + 40000:]
         T = bytes(T)
         # the one-call run tells us the body length
         session = tag.startswith("SESSION")
